@@ -30,6 +30,12 @@
 (*   "refit_if_unfit"  the scorer is refitted only if not yet fitted      *)
 (*   "update_replaces" update replaces the training data                  *)
 (*   "keep_on_set"     set_params keeps the fitted state                  *)
+(*                                                                         *)
+(* A parameter set ("p1", "p2") is a COMPLETE configuration: set_params   *)
+(* only sets the keys it is given, so the replay's two parameter sets of  *)
+(* a detector must have the same keys (asserted by the harness); with     *)
+(* unequal keys set_params(p2); set_params(p1) would leave a p2 value     *)
+(* behind, which this model does not represent.                           *)
 (***************************************************************************)
 EXTENDS Common, TLC, Json
 
